@@ -44,6 +44,10 @@ func TrustedFSFromTrustedSource(ts TrustedSource) TrustedFS {
 // Sub returns a TrustedFS at a subdirectory of the receiver.
 // It works by calling fs.Sub on the receiver's fs.FS.
 func (tf TrustedFS) Sub(dir TrustedSource) (TrustedFS, error) {
+	if tf.fsys == nil {
+		// (fs.Sub would wrap the nil file system, and ParseFS would dereference it.)
+		return TrustedFS{}, fmt.Errorf("template: Sub called on the zero TrustedFS")
+	}
 	subfs, err := fs.Sub(tf.fsys, dir.String())
 	return TrustedFS{fsys: subfs}, err
 }
